@@ -33,6 +33,11 @@ every item has exactly one accepted execution and nothing is RUNNING; CANCELLED 
 ERROR iff an accepted item failed; result = item results in index order; empty list -> SUCCESS at once; a drained
 trace is never left incomplete.
 
+Two model variants: Model/Items.v mirrors the source as it is (legacy _get_next_indexes); Model/ItemsFixed.v mirrors the
+proposed fix (fixed_get_next_indexes below).  detect_variant() probes which of the two the source implements and
+the main correspondence uses that one; while the source is legacy, suite `fixed_variant` additionally swaps the fixed
+function into the real class at run time and checks it against Model/ItemsFixed.v and the oracle.
+
 Findings on the unchanged tree (both reproduced end to end through the real engine, see the final report):
   F4  partial-rerun:succeeded-item-reexecuted     rerun(reset=False) of items [ERR, OK, OK] starts 0, 1 and 2 again
   F7  redo-under-concurrency:index-started-twice  retry/rerun with more items to redo than `concurrency`: an index
@@ -73,7 +78,9 @@ MANIFEST = {
                   'once in order, completion only when every item is accepted and handled, verdict CANCELLED > ERROR > '
                   'SUCCESS, no stuck state, empty list succeeds at once; result = accepted results in index order, '
                   'independent of the order of the executions; partial rerun characterised exactly, its only-failed '
-                  'property and index-once under retry/rerun with concurrency REFUTED with witnesses (F4, F7). Model tied '
+                  'property and index-once under retry/rerun with concurrency REFUTED with witnesses (F4, F7); for the '
+                  'proposed fix (Model/ItemsFixed.v) index-once, coverage of all items at completion, only-failed partial '
+                  'rerun, retry restarts all and result order are proved for ALL event lists. Model tied '
                   'to the code by differential runs of the real WithItemsTask / ConcurrencyPolicy / RegularAction / '
                   'get_task_execution_result methods on fake objects after every event of seeded event sequences.',
     'level_note': 'Component level: one event = one transaction (named_lock + refresh + keyed job checked by the '
@@ -86,7 +93,7 @@ MANIFEST = {
     'design_ref': '6 C07',
 }
 
-IMPORTS = ['Model.Items']
+IMPORTS = ['Model.Items', 'Model.ItemsFixed']
 P = 2305843009213693951
 
 TST = {'IDLE': 0, 'RUNNING': 1, 'RUNNING_DELAYED': 2, 'SUCCESS': 3, 'ERROR': 4, 'CANCELLED': 5}
@@ -205,7 +212,10 @@ def mods():
             def _build_action(self):
                 return actions.RegularAction(action_desc=FakeDesc(), task_ex=self.task_ex, task_ctx=self.ctx)
 
-        _mods.update(tasks=tasks, actions=actions, policies=policies, data_flow=data_flow, states=states,
+        class PatchedTask(Task):
+            _get_next_indexes = fixed_get_next_indexes
+
+        _mods.update(PatchedTask=PatchedTask, tasks=tasks, actions=actions, policies=policies, data_flow=data_flow, states=states,
                      spec_parser=spec_parser, Result=ml_actions.Result, Task=Task)
     return _mods
 
@@ -226,11 +236,26 @@ def patched(task_ex_ref):
         yield
 
 
-class Impl(object):
-    """One with-items task driven through the real methods."""
+def fixed_get_next_indexes(self):
+    """The proposed replacement of WithItemsTask._get_next_indexes (fix of F4 / F7); see Model/ItemsFixed.v."""
+    from mistral.workflow import states
+    capacity = self._get_with_items_capacity()
+    count = self._get_with_items_count()
+    occupied = set(
+        ex.runtime_context['index'] for ex in self.task_ex.executions
+        if ex.accepted or not states.is_completed(ex.state)
+    )
+    indices = [i for i in range(count) if i not in occupied]
+    return indices[:capacity]
 
-    def __init__(self, mode='literal'):
+
+class Impl(object):
+    """One with-items task driven through the real methods.  variant='patched' replaces _get_next_indexes
+    by fixed_get_next_indexes (only used to validate the proposed patch against Model/ItemsFixed.v)."""
+
+    def __init__(self, mode='literal', variant='source'):
         self.mode = mode
+        self.variant = variant
         self.m = mods()
         self.task_ex = None
         self.created = []     # executions in creation order (position = id)
@@ -265,7 +290,8 @@ class Impl(object):
     zero_literal = False
 
     def task(self, rerun=False, reset=False):
-        t = self.m['Task'](self.wf_ex, self.wf_spec, self.task_spec, {}, task_ex=self.task_ex, rerun=rerun)
+        cls = self.m['Task'] if self.variant == 'source' else self.m['PatchedTask']
+        t = cls(self.wf_ex, self.wf_spec, self.task_spec, {}, task_ex=self.task_ex, rerun=rerun)
         if reset:
             t.reset()
         return t
@@ -497,12 +523,12 @@ def choose_nc(rng):
     return n, c
 
 
-def gen_trace(rng, malformed=False, max_events=90):
+def gen_trace(rng, malformed=False, max_events=90, variant='source'):
     """Generate one event sequence while executing it on the implementation.
     Returns dict(events, views, mode, n, c, oracle failure, stats)."""
     n, c = choose_nc(rng)
     mode = 'absent' if c == 0 and rng.random() < 0.5 else rng.choice(['literal', 'yaql'])
-    impl = Impl(mode)
+    impl = Impl(mode, variant)
     impl.zero_literal = rng.random() < 0.5
     orc = Oracle()
     style = rng.choice(['random', 'random', 'fifo', 'accept-first', 'lifo'])
@@ -594,13 +620,13 @@ def gen_trace(rng, malformed=False, max_events=90):
 
 
 def _gen_batch(args):
-    seed, count, malformed = args
+    seed, count, malformed, variant = args
     import random
     rng = random.Random(seed)
-    return [gen_trace(rng, malformed=malformed) for _ in range(count)]
+    return [gen_trace(rng, malformed=malformed, variant=variant) for _ in range(count)]
 
 
-def gen_traces(ctx, count, malformed, batch=100):
+def gen_traces(ctx, count, malformed, batch=100, variant='source'):
     """count traces, generated in parallel worker processes; batch seeds are drawn from ctx.rng, so the
     result depends on VERIF_SEED only (not on the number of workers)."""
     import multiprocessing
@@ -608,7 +634,7 @@ def gen_traces(ctx, count, malformed, batch=100):
     left = count
     while left > 0:
         k = min(batch, left)
-        jobs.append((ctx.rng.getrandbits(64), k, malformed))
+        jobs.append((ctx.rng.getrandbits(64), k, malformed, variant))
         left -= k
     if len(jobs) <= 1:
         return [t for j in jobs for t in _gen_batch(j)]
@@ -618,9 +644,9 @@ def gen_traces(ctx, count, malformed, batch=100):
     return [t for part in parts for t in part]
 
 
-def run_events(events, mode='literal', zero_literal=False):
+def run_events(events, mode='literal', zero_literal=False, variant='source'):
     """Re-execute a given event list on the implementation (corpus, replay)."""
-    impl = Impl(mode)
+    impl = Impl(mode, variant)
     impl.zero_literal = zero_literal
     orc = Oracle()
     views, obs = [], []
@@ -673,11 +699,13 @@ CORPUS = [
 ]
 
 
-def check_against_model(ctx, tag, traces):
-    """Compare per-event view hashes inside coqc; on a difference fetch the model's views."""
+def check_against_model(ctx, tag, traces, fx=False):
+    """Compare per-event view hashes inside coqc; on a difference fetch the model's views.
+    fx: compare with Model/ItemsFixed.v (step_fx) instead of Model/Items.v (step)."""
     exprs = []
+    sfx = '_fx' if fx else ''
     for t in traces:
-        exprs.append('first_diff 0%%Z init %s %s%%Z' % (
+        exprs.append('first_diff' + sfx + ' 0%%Z init %s %s%%Z' % (
             core.coq_list([coq_event(e) for e in t['events']]),
             core.coq_list([str(vhash(v)) for v in t['views']])))
     res = core.coq_eval('c07' + tag, IMPORTS, exprs, chunk=150)
@@ -689,7 +717,7 @@ def check_against_model(ctx, tag, traces):
         if k != -1:
             bad.append((t, k))
     if bad:
-        exprs = ['views init %s' % core.coq_list([coq_event(e) for e in t['events'][:max(k, 0) + 1]]) for t, k in bad[:5]]
+        exprs = ['views' + sfx + ' init %s' % core.coq_list([coq_event(e) for e in t['events'][:max(k, 0) + 1]]) for t, k in bad[:5]]
         res = core.coq_eval('c07' + tag + 'v', IMPORTS, exprs, chunk=1)
         for (t, k), r in zip(bad[:5], res):
             rows = core.re.findall(r'\[([^\[\]]*)\]', r or '')
@@ -730,6 +758,10 @@ def run(ctx):
                        'random / fifo / lifo / all-accepts-first, up to 3 retry or rerun(reset on/off) rounds; malformed stream '
                        'with disabled events and stale / out-of-range ids; distinct = distinct (mode, event list); '
                        'non-trivial = at least 2 items or a redo round')
+    # which _get_next_indexes does the source have?  (decides the model the source is compared with; any
+    # third behaviour shows up as disagreements with the chosen one)
+    fx = detect_variant() == 'fixed'
+    ctx.cov['next_indexes_variant'] = 'fixed (Model/ItemsFixed.v step_fx)' if fx else 'legacy (Model/Items.v step)'
     # corpus first
     corpus = []
     for c in CORPUS:
@@ -739,7 +771,7 @@ def run(ctx):
         ctx.count('corpus', (c['mode'], tuple(t['events'])), evaluations=len(t['events']))
         if failure and not any(f['signature'] == failure[0] for f in ctx.failures):
             report_failure(ctx, minimise(t), c['name'])
-    check_against_model(ctx, 'corpus', corpus)
+    check_against_model(ctx, 'corpus', corpus, fx=fx)
     # generated
     phase = ctx.cov.setdefault('phase_s', {})
     stats = {'n': {}, 'c': {}, 'mode': {}, 'style': {}, 'final': {}, 'events': 0, 'redo_rounds': 0, 'oracle_signatures': {}}
@@ -764,16 +796,52 @@ def run(ctx):
             if not any(f['signature'] == sig for f in ctx.failures):
                 report_failure(ctx, minimise(t))
         t0 = time.time()
-        check_against_model(ctx, tag, traces)
+        check_against_model(ctx, tag, traces, fx=fx)
         phase['model-eval:' + tag] = round(time.time() - t0, 1)
         if traces:
             ctx.sample({'suite': tag, 'mode': traces[0]['mode'], 'events': [list(e) for e in traces[0]['events']][:40],
                         'final': traces[0]['final']})
     ctx.cov['suites'].setdefault('sequences', {})['distribution'] = stats
+    if not fx:
+        suite_fixed_variant(ctx)
     suite_policy_types(ctx)
     engine_traces(ctx)
     ctx.assumptions += ['one event = one transaction (named_lock + refresh + keyed job: checked structurally by tr_itemslock)',
                         'Task.complete / set_state / action descriptor / DB replaced by fakes (see suite docstring)']
+
+
+def detect_variant():
+    """'legacy' if a partial rerun of items [ERROR, SUCCESS, SUCCESS] starts 0, 1 and 2 (finding F4), 'fixed' if it
+    starts only 0 and a retry of 3 failed items under concurrency 2 starts 0 and 1 (no F7), else 'other'."""
+    _, _, obs = run_events(CORPUS[0]['events'][:8], CORPUS[0]['mode'])
+    started4 = [c[0] for c in obs[-1]['children'][3:]]
+    _, _, obs = run_events(CORPUS[1]['events'][:11], CORPUS[1]['mode'])
+    started7 = [c[0] for c in obs[-1]['children'][3:]]
+    if started4 == [0, 1, 2]:
+        return 'legacy'
+    if started4 == [0] and started7 == [0, 1, 2]:
+        return 'fixed'
+    return 'other'
+
+
+def suite_fixed_variant(ctx):
+    """The proposed patch (fixed_get_next_indexes swapped into the real class at run time) against
+    Model/ItemsFixed.v, with the property oracle: validates the patch whose model-level theorems are the
+    C07_fixed_* ones.  A failure here is a defect of the proposal, not of /repo: reported as a disagreement."""
+    t0 = time.time()
+    traces = []
+    for c in CORPUS:
+        views, failure, _ = run_events(c['events'], c['mode'], variant='patched')
+        traces.append({'events': [tuple(e) for e in c['events']], 'views': views, 'mode': c['mode'], 'failure': failure})
+    traces += gen_traces(ctx, ctx.n(600, 8000), False, variant='patched')
+    traces += gen_traces(ctx, ctx.n(200, 2000), True, variant='patched')
+    for t in traces:
+        ctx.count('fixed_variant', (t['mode'], tuple(t['events'])), evaluations=len(t['events']))
+        if t['failure']:
+            ctx.disagree('fixed_variant_oracle', {'events': [list(e) for e in t['events']], 'mode': t['mode']},
+                         'property holds', '%s: %s' % t['failure'])
+    check_against_model(ctx, 'fixed_variant', traces, fx=True)
+    ctx.cov.setdefault('phase_s', {})['fixed_variant'] = round(time.time() - t0, 1)
 
 
 def suite_policy_types(ctx):
